@@ -320,3 +320,17 @@ impl Curve {
         deserialize(state)
     }
 }
+
+// verification hook: Python's pickle protocol on the Curve class
+#[cfg(feature = "verif")]
+impl Curve {
+    pub(crate) fn verif_py_pickle(&self) -> Result<Curve, String> {
+        let a = self.__getnewargs__().map_err(|_| "__getnewargs__ failed".to_string())?;
+        let mut o = Curve::new_py(a.0, a.1, a.2, a.3, a.4, a.5, a.6, a.7).map_err(|_| "cls(*__getnewargs__()) failed".to_string())?;
+        Python::with_gil(|py| {
+            let st = self.__getstate__(py).map_err(|_| "__getstate__ failed".to_string())?;
+            o.__setstate__(st).map_err(|_| "__setstate__ failed".to_string())
+        })?;
+        Ok(o)
+    }
+}
